@@ -40,10 +40,16 @@ func (s *Topics) Open() error {
 
 func (s *Topics) Close() error {
 	s.mu.Lock()
-	defer s.mu.Unlock()
+	topics := make([]*Topic, 0, len(s.topics))
 	for topic, t := range s.topics {
-		t.close()
+		topics = append(topics, t)
 		delete(s.topics, topic)
+	}
+	s.mu.Unlock()
+	// Closing a topic delivers the events still queued for its handlers, which must not hold the lock:
+	// a handler that publishes to another topic collects through this very object.
+	for _, t := range topics {
+		t.close()
 	}
 	return nil
 }
@@ -145,24 +151,26 @@ func (s *Topics) DeregisterHandler(topic string, h Handler) {
 		return
 	}
 
-	s.mu.Lock()
-	defer s.mu.Unlock()
+	s.mu.RLock()
+	t, ok := s.topics[topic]
+	s.mu.RUnlock()
 
-	if t, ok := s.topics[topic]; ok {
+	// Removing a handler delivers the events still queued for it, see Close.
+	if ok {
 		t.removeHandler(h)
 	}
 }
 
 func (s *Topics) ReplaceHandler(topic string, oldH, newH Handler) {
 	s.mu.Lock()
-	defer s.mu.Unlock()
-
 	t, ok := s.topics[topic]
 	if !ok {
 		t = s.newTopic(topic)
 		s.topics[topic] = t
 	}
+	s.mu.Unlock()
 
+	// Replacing a handler delivers the events still queued for the old one, see Close.
 	t.replaceHandler(oldH, newH)
 }
 
@@ -254,9 +262,12 @@ func (t *Topic) addHandler(h Handler) {
 // replaceHandler swaps the handlers in one step so that no collected event falls in between.
 func (t *Topic) replaceHandler(oldH, newH Handler) {
 	t.mu.Lock()
-	defer t.mu.Unlock()
-	t.removeHandlerLocked(oldH)
+	removed := t.removeHandlerLocked(oldH)
 	t.addHandlerLocked(newH)
+	t.mu.Unlock()
+	if removed != nil {
+		removed.Close()
+	}
 }
 
 func (t *Topic) addHandlerLocked(h Handler) {
@@ -271,15 +282,19 @@ func (t *Topic) addHandlerLocked(h Handler) {
 
 func (t *Topic) removeHandler(h Handler) {
 	t.mu.Lock()
-	defer t.mu.Unlock()
-	t.removeHandlerLocked(h)
+	removed := t.removeHandlerLocked(h)
+	t.mu.Unlock()
+	if removed != nil {
+		removed.Close()
+	}
 }
 
-func (t *Topic) removeHandlerLocked(h Handler) {
+// removeHandlerLocked takes the handler off the topic and returns it.
+// The caller closes it, which delivers the events still queued for it, once it has released the lock.
+func (t *Topic) removeHandlerLocked(h Handler) (removed *bufHandler) {
 	for i := 0; i < len(t.handlers); i++ {
 		if t.handlers[i].Equal(h) {
-			// Close handler
-			t.handlers[i].Close()
+			removed = t.handlers[i]
 			if i < len(t.handlers)-1 {
 				t.handlers[i] = t.handlers[len(t.handlers)-1]
 			}
@@ -287,6 +302,7 @@ func (t *Topic) removeHandlerLocked(h Handler) {
 			break
 		}
 	}
+	return removed
 }
 
 func (t *Topic) restoreEventStatesNoCopy(eventStates map[string]*EventState) {
@@ -326,12 +342,13 @@ func (t *Topic) EventState(event string) (EventState, bool) {
 
 func (t *Topic) close() {
 	t.mu.Lock()
-	defer t.mu.Unlock()
+	handlers := t.handlers
+	t.handlers = nil
+	t.mu.Unlock()
 	// Close all handlers
-	for _, h := range t.handlers {
+	for _, h := range handlers {
 		h.Close()
 	}
-	t.handlers = nil
 	vars.DeleteStatistic(t.statsKey)
 }
 
